@@ -206,3 +206,21 @@ func LL(lat, lng float64) s2.Point { return s2.PointFromLatLng(s2.LatLngFromDegr
 
 // Deg converts degrees to an s1.Angle.
 func Deg(d float64) s1.Angle { return s1.Angle(d) * s1.Degree }
+
+// PGeneric returns points in general position (no zero, equal or otherwise related
+// coordinates): the inputs for which floating-point rounding noise is largest.
+func PGeneric(big bool) []s2.Point {
+	lats := []float64{-67.3, -35.1, -11.7, 8.9, 23.4, 47.2, 71.9}
+	lngs := []float64{-163.2, -97.4, -31.8, 12.6, 58.3, 104.7, 149.1}
+	if big {
+		lats = append(lats, -52.6, -2.3, 35.8, 83.1)
+		lngs = append(lngs, -128.9, -61.5, 81.2, 171.6)
+	}
+	var out []s2.Point
+	for _, la := range lats {
+		for _, lo := range lngs {
+			out = append(out, LL(la, lo))
+		}
+	}
+	return out
+}
